@@ -252,6 +252,30 @@ class VecEval:
     def call(self, e):
         fn = ast.unparse(e.func)
         short = fn.split('.')[-1]
+        if fn in ('self.__class__', 'type(self)', 'self._constructor', 'self.__class__._from_arrow') and e.args:
+            return self.expr(e.args[0])          # re-wrapping arrow data in the receiver's class keeps the positions
+        if fn in ('pa.array', 'pyarrow.array', 'np.asarray', 'numpy.asarray', 'np.ascontiguousarray') and e.args:
+            v = self.expr(e.args[0])
+            if isinstance(v, (list, tuple)):
+                m = next((self.expr(k.value) for k in e.keywords if k.arg == 'mask'), None)
+                if isinstance(m, list) and any(m):
+                    return [None if mk else x for x, mk in zip(v, m)]
+                return list(v)
+            raise Unsupported('array of a non-vector')
+        if fn in ('np.isscalar', 'numpy.isscalar') and e.args:
+            return not isinstance(self.expr(e.args[0]), (list, tuple))
+        if isinstance(e.func, ast.Attribute) and isinstance(e.func.value, ast.Name) and e.func.value.id == 'self' and fn not in ('self.take',) and self.func.cls is not None:
+            ci, mem = self.P.lookup(self.func.cls, e.func.attr)
+            if mem is not None and mem[0] == 'func' and mem[1].kind == 'method' and not e.keywords and len(e.args) == len(mem[1].params) - 1:
+                h = mem[1]
+                sub = VecEval(self.P, h, dict(zip(h.params[1:], [self.expr(a) for a in e.args])), self.n)
+                try:
+                    sub.block(h.node.body)
+                except Returned as ret:
+                    if ret.value == 'raise':
+                        raise
+                    return ret.value
+                return None
         if isinstance(e.func, ast.Attribute) and fn in ('self.take', 'self.data.take'):
             v = self.expr(e.args[0])
             if isinstance(v, list):
